@@ -210,6 +210,12 @@ def features(events, obs):
                 f.add("close_with_pending")
         if op == "make" and " ; " in e:
             f.add("hook_multi_action")
+        # the endpoint answered connect() synchronously: the outcome is part of the step that dialled
+        if op not in ("connOk", "connFail") and "connect" in kinds:
+            if "write" in kinds or "writeLost" in kinds:
+                f.add("sync_connect_ok_writes")
+            if "setTimer" in kinds:
+                f.add("sync_connect_fail")
         # the pathological endpoint connected from inside connector.cancel()
         if "cancelConnect" in kinds and "lose" in kinds:
             f.add("stubborn_connect_in_cancel")
@@ -314,9 +320,10 @@ ALPHABET = [
     "make 1 1", "make 2 1", "make 2 0", "make 2 0 hook close", "make 1 1 hook cancel 2", "make 2 0 hook cancel 1",
     "make 1 1 hook make 2 1", "make 2 0 hook disconnect", "make 2 0 hook cancel 1 ; close", "stubborn 1", "cancel 1", "cancel 2", "connOk", "connFail", "advance 1", "advance 1/2",
     "bytes " + F1, "bytes " + F2, "bytes " + F1[:12], "bytes " + F1[12:], "bytes " + F2 + F1, "bytes 80000000",
-    "lost", "close", "disconnect", "meta 2 9093",
+    "lost", "close", "disconnect", "meta 2 9093", "sync ok", "sync fail",
 ]
-SMALL_ALPHABET = ["make 1 1", "make 2 1", "cancel 1", "connOk", "connFail", "advance 1", "bytes " + F1, "bytes " + F2, "lost", "close", "disconnect"]
+SMALL_ALPHABET = ["make 1 1", "make 2 1", "cancel 1", "connOk", "connFail", "advance 1", "bytes " + F1, "bytes " + F2, "lost", "close", "disconnect",
+                  "sync ok", "sync fail"]
 EX_HEADER = (1, 9092, ["1"])
 
 
